@@ -59,7 +59,7 @@ def _validate_file(args):
     return vlib.validate_trace(SPECD, "VectoredTrace", cfg, path, timeout=900)
 
 
-def validate_writer_traces(chk, prop, trace_path, meta_path, kind, nchunks=4, max_rejects=12):
+def validate_writer_traces(chk, prop, trace_path, meta_path, kind, nchunks=4, max_rejects=6):
     metas = vlib.read_ndjson(meta_path)
     with open(trace_path) as f:
         lines = f.readlines()
@@ -75,15 +75,15 @@ def validate_writer_traces(chk, prop, trace_path, meta_path, kind, nchunks=4, ma
 
     def work(ci_ms):
         ci, ms = ci_ms
-        ms = list(ms)
-        rej = []
+        ms = [m for m in ms if not m.get("bad")]     # already reported from the byte-level checks
+        rej, acc = [], 0
         while ms:
             path = f"{trace_path}.c{ci}"
             write_chunk(ms, path)
             v = _validate_file((path, "VectoredTrace.cfg"))
             if v.accepted:
-                return len(ms), rej
-            # find the scenario that contains the rejected line
+                return acc + len(ms), rej
+            # find the scenario that contains the rejected line; everything before it was accepted
             pos, hit = 0, None
             for k, m in enumerate(ms):
                 if pos + m["events"] >= (v.line or 1):
@@ -92,15 +92,17 @@ def validate_writer_traces(chk, prop, trace_path, meta_path, kind, nchunks=4, ma
                 pos += m["events"]
             if hit is None:
                 hit = len(ms) - 1
-            m = ms.pop(hit)
+            m = ms[hit]
+            acc += hit
+            ms = ms[hit + 1:]
             one = f"{trace_path}.r{m['id']}"
             write_chunk([m], one)
             strict = _validate_file((one, "VectoredTrace.cfg"))
             absv = _validate_file((one, "VectoredTraceAbs.cfg"))
             rej.append((m, strict, absv, one))
             if len(rej) >= max_rejects:
-                return 0, rej
-        return 0, rej
+                return acc, rej
+        return acc, rej
 
     with ThreadPoolExecutor(max_workers=nchunks) as ex:
         for acc, rej in ex.map(work, list(enumerate(chunks))):
